@@ -64,6 +64,9 @@ def decorate(case, k, rng, cfg=None):
     c["casetwin"] = 1 if case["n"] >= 3 and rng.random() < 0.2 else 0
     # the modules close their last statements with semicolons (tokens of the MODULE's text, not of the entry's)
     c["semi"] = 1 if rng.random() < 0.3 else 0
+    # ALIAS spellings: `@lib/..` resolved through a `.luaurc` (one spelling in four of the cases that have it); the bundling is
+    # preceded, on the same thread, by the bundling of a DECOY project whose `.luaurc` gives `lib` another target
+    c["rc"] = 1 if c["root"] == 0 and rng.random() < 0.3 else 0
     return c
 
 
